@@ -7,12 +7,57 @@ VERIF = os.path.dirname(os.path.dirname(os.path.abspath(__file__)))
 
 # id -> (category, technique, design_ref, level text, level note)
 CHECKS = {
+    "C01": ("exploration", "reference-model monitor: byte-exact comparison of real csvdump runs on generated chains",
+            "DESIGN.md §4 C01",
+            "Real csvdump runs over generated chains covering every CompactSize width boundary in every count/length position, segwit/legacy "
+            "mixes, extreme field values, long chains and big scripts, x 8 coins x --verify on/off (+ debug build subset); all four CSV files, "
+            "file names and completion totals must equal an independent model byte for byte.",
+            "Trusts the Python serialiser/model (hashlib sha256) and rusty-leveldb as index writer; only canonical, well-formed chains are generated."),
     "C02": ("exploration", "trace-spec monitor over hook event log + reference-model monitor on real runs",
             "DESIGN.md §4 C02",
             "Every accepted (--start,--end) combination for chains of 1..6 (quick) / 1..10 (thorough) blocks is executed with all five "
             "callbacks on the real binary; the H1 delivery log must be exactly start(s), deliver s..min(e,T) ascending once, complete(last); "
             "all outputs must equal the independent model of that slice. Bounded-exhaustive for small T, sampled for heights up to 5M.",
             "Trusts the Python reference model/generators, rusty-leveldb (index writer) and that the H1 hook is placed directly before the callback call."),
+    "C03": ("exploration", "metamorphic + reference-model monitor over physical layouts, trace check of the fetch log",
+            "DESIGN.md §4 C03",
+            "One logical chain is laid out in many physical ways (file assignment/order, 1..300 files, file numbers to 2^64-1, name padding, "
+            "gaps/garbage/foreign/unindexed blocks, sparse >4 GiB offsets, extra index keys and directory entries, index storage styles); every "
+            "layout is run for real and must give the model's output, identical across layouts; the H2 fetch log must name the record's (file, offset).",
+            "Trusts the generator's CDiskBlockIndex encoding (written from Bitcoin Core's serialisation rules) and rusty-leveldb."),
+    "C05": ("exploration", "differential monitor: real evaluator verdict stream vs reference rule table + independent address decoder",
+            "DESIGN.md §4 C05",
+            "2x10^5 (quick) to millions (thorough) of scripts from exhaustive mutation families and random generators are evaluated by the real "
+            "code (release and debug) and compared with a reference classifier written from the statement; every address is decoded by an "
+            "independent Base58Check/Bech32(m) implementation; a sample is observed black-box through four callbacks.",
+            "The reference is my reading of the statement; two multisig look-alike shapes are type-unconstrained. The tool-mode hook calls the production function unchanged."),
+    "C06": ("exploration", "differential monitor: real evaluator verdict stream vs push-rule tokenizer/template reference",
+            "DESIGN.md §4 C06",
+            "As C05 for the six fork coins with fork-specific families (every push form in every template slot across all width boundaries, "
+            "zero-length and truncated pushes, NOP insertion, wrong/missing/extra tokens); no Error pattern and no panic allowed.",
+            "Reference tokenizer + five templates from the statement; coin version bytes taken from the property text."),
+    "C11": ("exploration", "metamorphic monitor: plaintext vs XOR-obfuscated directory, plus reference model",
+            "DESIGN.md §4 C11",
+            "For keys of every length 1..64 (quick: 11 lengths) x {zero, random, 0xff, single-bit} and layouts forcing backward/forward/beyond-"
+            "buffer seeks, >32 KiB blocks, unaligned offsets and >4 GiB offsets, the obfuscated directory must give byte-identical output to the "
+            "plaintext one and to the model; seek kinds actually exercised are counted from the H2 log.",
+            "Obfuscation performed by the harness (independent XOR); holes of sparse files are never read."),
+    "C14": ("exploration", "totality monitor (exit status/panic) on debug+release builds + reference model on whole-program runs",
+            "DESIGN.md §4 C14",
+            "Hostile byte strings are pushed through the evaluator in-process (catch_unwind) on debug and release builds for 8 coins, and placed "
+            "into scriptPubKey/scriptSig/witness of valid chains on which all five callbacks must exit 0 with outputs equal to the model.",
+            "Debug-profile overflow/bounds checks act as the sanitizer; chains are otherwise valid."),
+    "C16": ("exploration", "reference-model monitor on real opreturn runs (exact text and order)",
+            "DESIGN.md §4 C16",
+            "Payload lengths 0..300 exhaustively and up to 70,000 in every push form, ASCII/UTF-8/invalid/newline/control payloads mixed with all "
+            "other script types x 8 coins x ranges; stdout minus log lines must equal the model's line sequence exactly.",
+            "OP_RETURN scripts that are not exactly one push are unconstrained; payloads never look like log lines."),
+    "C17": ("exploration", "trace-spec monitor over /proc/self/fd census events + RLIMIT_NOFILE black-box monitor",
+            "DESIGN.md §4 C17",
+            "Real runs over 1..100/300-file layouts (disjoint, overlapping, interleaved, revisited) and ranges; after every block the real set of "
+            "descriptors open on blk files must be within the files that still hold a higher block; runs must also succeed under a descriptor "
+            "limit calibrated on the single-file layout (+2/+3).",
+            "Census hook reads /proc/self/fd; bound computed from the full index as the statement allows."),
 }
 
 NOT_YET = {
